@@ -17,8 +17,11 @@ def countLF (d : Bytes) : Nat := (d.filter fun b => b.toNat == 10).length
 /-- number of Unicode scalar values (= non-continuation bytes) -/
 def scalars (d : Bytes) : Nat := (d.filter fun b => !isCont b).length
 
-/-- the text after the last line feed (everything when there is none) -/
-def lastLine (d : Bytes) : Bytes := (d.reverse.takeWhile fun b => b.toNat != 10).reverse
+/-- the text after the last line feed (everything when there is none); characterised by
+`Trion.Pos.lastLine_spec` in `Props/C12.lean` -/
+def lastLine : Bytes → Bytes
+  | [] => []
+  | b :: d => if countLF d > 0 then lastLine d else if b.toNat == 10 then d else b :: d
 
 /-- position of the item that follows the text `pre` -/
 def of (pre : Bytes) : Nat × Nat := (1 + countLF pre, 1 + scalars (lastLine pre))
